@@ -59,3 +59,46 @@ pub fn uf_write(i: usize, entry: &AppliedId) {
 pub fn take_uf_writes() -> Vec<(usize, String)> {
     UF_WRITES.with_borrow_mut(|v| std::mem::take(v))
 }
+
+thread_local! {
+    static GROUP_LOG: RefCell<Vec<String>> = RefCell::new(Vec::new());
+}
+
+fn enc_perms(ps: &[SlotMap]) -> String {
+    let mut v: Vec<String> = ps.iter().map(crate::verif_enc_slotmap).collect();
+    v.sort();
+    if v.is_empty() {
+        "-".to_string()
+    } else {
+        v.join("/")
+    }
+}
+
+/// Records what `move_to` did to the groups: the map it wrote (slots of `to` -> slots of `from`), the generators of the class
+/// merged away, and the generators of the surviving class before and after the transfer.
+pub fn group_merge(from: usize, to: usize, map: &SlotMap, from_gens: &[SlotMap], to_before: &[SlotMap], to_after: &[SlotMap]) {
+    GROUP_LOG.with_borrow_mut(|v| {
+        v.push(format!(
+            "merge {} {} {} {} {} {}",
+            from,
+            to,
+            crate::verif_enc_slotmap(map),
+            enc_perms(from_gens),
+            enc_perms(to_before),
+            enc_perms(to_after)
+        ))
+    });
+}
+
+/// Records what `shrink_slots` did to the group of a class: the retained slots, the generators before and after.
+pub fn group_shrink(id: usize, cap: &[Slot], before: &[SlotMap], after: &[SlotMap]) {
+    let mut c: Vec<u32> = cap.iter().map(|s| s.verif_code()).collect();
+    c.sort();
+    let c: Vec<String> = c.into_iter().map(|x| x.to_string()).collect();
+    GROUP_LOG.with_borrow_mut(|v| v.push(format!("shrink {} [{}] {} {}", id, c.join("|"), enc_perms(before), enc_perms(after))));
+}
+
+/// Returns and clears the group log of the current thread.
+pub fn take_group_log() -> Vec<String> {
+    GROUP_LOG.with_borrow_mut(|v| std::mem::take(v))
+}
